@@ -33,7 +33,7 @@ const (
 	obState  = "oracle: state independence — a request served again later in the same process (after other requests, on other API values) gets its first-time answer"
 	keyF19a  = "F-19a-marshal-fallback-not-a-document"
 	keyF19b  = "F-19b-relationship-route-without-get-404"
-	ruleText = "cases = (generated resource schema, request); requests: method(10) × path depth 0..6 (known/unknown type, ids incl. empty/unicode/'relationships', relationship/attribute/unknown names) × 25 Accept variants × 61 query-key variants × 24 body families (matching/conflicting/undecodable) ; per schema a method×route grid and an Accept×query grid are enumerated, the rest is random; history dimension: per schema several confusable families (same Accept values split differently over header lines, same path with other method/Accept/query/body/spelling, same request on another schema) served in random order and again, plus a final re-serve pass over a sample of everything served (answers must equal the first-time answers). distinct = distinct (schema, abstract request); non-trivial = negotiation and the parameter check pass and the path's first component is a defined type at depth 1..4 (the request reaches the routing tree)"
+	ruleText = "cases = (generated resource schema, request); requests: method(10) × path depth 0..6 (known/unknown type, ids incl. empty/unicode/'relationships', relationship/attribute/unknown names) × 25 hand-picked Accept variants + systematic Accept sequences (all sequences of 1 and 2 instance kinds over 10 kinds in both orders, sampled length 3..5 with an acceptable and an unacceptable JSON:API instance at random positions, each in up to 5 line layouts) × 61 query-key variants × 24 body families (matching/conflicting/undecodable) ; per schema a method×route grid and an Accept×query grid are enumerated, the rest is random; history dimension: per schema several confusable families (same Accept values split differently over header lines, same path with other method/Accept/query/body/spelling, same request on another schema) served in random order and again, plus a final re-serve pass over a sample of everything served (answers must equal the first-time answers). distinct = distinct (schema, abstract request); non-trivial = negotiation and the parameter check pass and the path's first component is a defined type at depth 1..4 (the request reaches the routing tree)"
 )
 
 type harness struct {
@@ -451,7 +451,7 @@ func (h *harness) runBatch(w World, schema *jsonapi.Schema, reqs []ReqSpec, sour
 		h.run.Count(fmt.Sprintf("status:%d", real.Status))
 		h.run.Count("method:" + c.Req.Method)
 		h.run.Count(fmt.Sprintf("depth:%d", len(comps)))
-		h.run.Count("accept:" + c.Req.AcceptKind)
+		h.run.Count("accept:" + acceptCountKey(&c.Req))
 		h.run.Count("query:" + c.Req.QueryKind)
 		h.run.Count("body:" + c.Req.Label.Family)
 		if c.Req.Inject != nil {
@@ -486,6 +486,39 @@ func (h *harness) runBatch(w World, schema *jsonapi.Schema, reqs []ReqSpec, sour
 }
 
 var gridMethods = []string{"GET", "POST", "PATCH", "DELETE", "PUT", "get"}
+
+// acceptCountKey keeps the distribution readable: systematic sequences are counted by length, layout
+// and by where the acceptable JSON:API instance stands relative to an unacceptable one.
+func acceptCountKey(q *ReqSpec) string {
+	k := q.AcceptKind
+	if !strings.HasPrefix(k, "seq[") {
+		return k
+	}
+	inner := k[4:strings.Index(k, "]")]
+	layout := k[strings.Index(k, "]")+2:]
+	kinds := strings.Split(inner, ",")
+	firstOK, lastBad := -1, -1
+	for i, x := range kinds {
+		switch x {
+		case "plain", "profile":
+			if firstOK < 0 {
+				firstOK = i
+			}
+		case "ext", "charset", "q", "profile+other", "jsonapi-parse-error":
+			lastBad = i
+		}
+	}
+	order := "no-acceptable"
+	switch {
+	case firstOK >= 0 && lastBad < 0:
+		order = "only-acceptable"
+	case firstOK >= 0 && lastBad > firstOK:
+		order = "acceptable-before-unacceptable"
+	case firstOK >= 0:
+		order = "unacceptable-before-acceptable"
+	}
+	return fmt.Sprintf("seq/len=%d/%s/%s", len(kinds), layout, order)
+}
 
 func queryAllSupported(q *ReqSpec) bool {
 	for _, k := range q.queryKeys() {
@@ -550,6 +583,24 @@ func gridRequests(r *hx.Rand, w *World) (routes []ReqSpec, nego []ReqSpec) {
 		}
 	}
 	return routes, nego
+}
+
+// acceptSequenceRequests: one request that reaches a handler × every systematic Accept header
+// (accept_gen.go): all sequences of one and two instance kinds in both orders, sampled longer ones,
+// each in several line layouts.
+func acceptSequenceRequests(r *hx.Rand, w *World, sampled int) []ReqSpec {
+	base := intentRequest(r, w)
+	base.RawQuery, base.QueryKind = "", "none"
+	var out []ReqSpec
+	for _, ac := range systematicAccepts(r, sampled) {
+		q := base
+		q.Accept, q.AcceptKind = ac.lines, ac.kind
+		if strings.HasSuffix(ac.kind, "/lines") && refAcceptable(&q) != ac.anyAcceptable {
+			panic(fmt.Sprintf("accept generator label disagrees with the reference: %q any-acceptable=%v", ac.lines, ac.anyAcceptable))
+		}
+		out = append(out, q)
+	}
+	return out
 }
 
 func main() {
@@ -654,6 +705,7 @@ func main() {
 		routes, nego := gridRequests(r, &w)
 		h.runBatch(w, schema, routes, "route-grid")
 		h.runBatch(w, schema, nego, "accept-query-grid")
+		h.runBatch(w, schema, acceptSequenceRequests(r, &w, run.Scale(60, 150)), "accept-sequences")
 		var reqs []ReqSpec
 		for i := 0; i < randomPer; i++ {
 			reqs = append(reqs, genRequest(r.Fork(), &w))
